@@ -806,7 +806,13 @@ def exi2_consumers(ctx: Ctx) -> None:
         return U().visit(_copy.deepcopy(e))
     for n in ast.walk(fn):
         if isinstance(n, ast.Assign) and isinstance(n.targets[0], ast.Attribute) and n.targets[0].attr == "obj":
-            v = norm(canon(n.value))
+            val_ = n.value
+            if isinstance(val_, ast.Name):
+                # a local assigned once, in the same block, from the value
+                ds_ = [a_ for a_ in walk_scope(fn) if isinstance(a_, ast.Assign) and len(a_.targets) == 1 and isinstance(a_.targets[0], ast.Name) and a_.targets[0].id == val_.id]
+                if len(ds_) == 1 and guards_of(m, ds_[0], fn) == guards_of(m, n, fn) and ds_[0].lineno < n.lineno:
+                    val_ = ds_[0].value
+            v = norm(canon(val_))
             if v == "args.locals[args.args[0]]":
                 ctx.R.ok("EXI-2", "obj fix-up reads the first positional argument (self) of the next inner frame")
             else:
@@ -830,6 +836,23 @@ def exi2_consumers(ctx: Ctx) -> None:
                            construct="guard of the obj fix-up")
             else:
                 ctx.R.undecided("EXI-2", f"guard of the obj fix-up not understood: {cexg}")
+
+    # EXI-2c: once built, the list of active contexts only grows or has fields filled in: no entry is dropped, and managers are
+    # never compared by value (`==` runs the observed program's __eq__, and two equal managers -- two Scope("db") dataclasses,
+    # a re-entrant manager entered twice -- are still two active contexts)
+    for q_ in ("contexts_active_in_frame", "_contexts_active_by_trickery", "_contexts_active_by_referents"):
+        if not m.has(q_):
+            continue
+        f_ = m.fn(q_)
+        for n in walk_scope(f_):
+            if isinstance(n, ast.Compare) and any(isinstance(o_, (ast.Eq, ast.NotEq, ast.In, ast.NotIn)) for o_ in n.ops) \
+                    and any(isinstance(x_, ast.Attribute) and x_.attr == "obj" for x_ in [n.left] + n.comparators):
+                ctx.R.fail("EXI-2", m, n, f"{q_}: `{norm(n)[:60]}` compares context managers of the observed program by value: it runs their __eq__ and treats two equal (or one re-entrant, twice "
+                           "entered) managers as one -- an active context is dropped or merged", construct=f"{q_}: manager compared by value")
+            elif isinstance(n, ast.Assign) and any(isinstance(t_, ast.Subscript) and isinstance(t_.slice, ast.Slice) and norm(t_.value) == "ret" for t_ in n.targets) \
+                    and isinstance(n.value, (ast.ListComp, ast.GeneratorExp)) and any(g_.ifs for g_ in n.value.generators):
+                ctx.R.fail("EXI-2", m, n, f"{q_}: `{norm(n)[:70]}` filters entries out of the list of active contexts after it was built: a manager that is active is no longer reported",
+                           construct=f"{q_}: entries removed from the result")
 
 
 # --------------------------------------------------------------------- JOIN-1
@@ -2175,6 +2198,51 @@ def opc11_step_semantics(ctx: Ctx) -> None:
             else:
                 n_ok += 1
                 ctx.R.ok("OPC-11", f"{op_} ({desc}): {init[-3:]} -> {got[-2:]}", "matches the opcode's stack effect; " + ("ends the sequence" if ends else "continues"))
+    # keyword calls (if the decoder has cases for them): the names belong to exactly one call.  The interpreter consumes KW_NAMES /
+    # the names tuple of CALL_FUNCTION_KW with the call that follows; a decoder that keeps them renders the positional arguments
+    # of a *later* call of the same target as keywords (`reg(kind='x').get(3)` -> `reg(kind='x').get(kind=3)`)
+    import ast as _ast
+    seqs = []
+    if "KW_NAMES" in names and "CALL" in names:
+        seqs.append(("KW_NAMES; CALL 1; CALL 1", [("KW_NAMES", dict(argval=("k1",), arg=0, argrepr="('k1',)")), ("CALL", dict(argval=1, arg=1, argrepr="")), ("CALL", dict(argval=1, arg=1, argrepr=""))],
+                     ["<x>", "<g>", "<f>", "<a1>"]))
+    if "CALL_FUNCTION_KW" in names and "CALL_FUNCTION" in names:
+        seqs.append(("CALL_FUNCTION_KW 1; CALL_FUNCTION 1", [("CALL_FUNCTION_KW", dict(argval=1, arg=1, argrepr="")), ("CALL_FUNCTION", dict(argval=1, arg=1, argrepr=""))],
+                     ["<x>", "<g>", "<f>", "<a1>", "('k1',)"]))
+    for label, ins, init in seqs:
+        il = [SimpleNamespace(opname=o_, offset=2 * i_, starts_line=None, is_jump_target=False, opcode=0, **f_) for i_, (o_, f_) in enumerate(ins)]
+        il.append(SimpleNamespace(opname="<end>", offset=2 * len(il), starts_line=None, is_jump_target=False, opcode=0, argval=None, arg=None, argrepr=""))
+        env0 = dict({k_: (dict(v_) if isinstance(v_, dict) else v_) for k_, v_ in tables.items()}, **{"insns": il, "idx": 0, "True": True, "ast": SimpleNamespace(literal_eval=_ast.literal_eval)})
+        m = Mini(env0, dict(helpers), {nt.name: lambda: "<t>"})
+        try:
+            for pst in nt.body:
+                if pst is loop:
+                    break
+                if isinstance(pst, (ast.Assign, ast.AnnAssign)):
+                    m.stmt(pst)
+            m.env["stack"] = list(init)
+            m.env["idx"] = 0
+            for _ in ins:
+                ctl = m.run(loop.body)
+                if ctl == "break":
+                    break
+            got = m.env.get("stack")
+        except (Raised, Unsupported) as ex:
+            ctx.R.ok("OPC-11", f"{label}: not evaluated ({str(ex)[:60]})", "keyword calls stay an unsupported target form or are outside the fragment")
+            continue
+        except Exception as ex:
+            ctx.R.ok("OPC-11", f"{label}: not evaluated ({type(ex).__name__})", "outside the fragment")
+            continue
+        want = ["<x>", "<g>(<f>(k1=<a1>))"]
+        if got == want:
+            n_ok += 1
+            ctx.R.ok("OPC-11", f"{label}: {init} -> {got}", "the keyword names are used by the call they precede and by no later one")
+        elif isinstance(got, list) and got and isinstance(got[-1], str) and "k1=<f>" in got[-1]:
+            ctx.R.fail("OPC-11", mod, loop, f"{label} on operands {init} is rendered as {got[-1]!r}; the compiled expression is {want[-1]!r}: the keyword names of one call are still in effect for the next "
+                       "call of the same target (the interpreter consumes them with the call they precede), so a later call's positional arguments are shown as keywords -- varname is wrong, not absent",
+                       construct="keyword names survive the call they belong to")
+        else:
+            ctx.R.undecided("OPC-11", f"{label}: operands {init} become {got}")
     if n_ok < 20 and not any(e_.startswith("OPC-11") for e_ in ctx.R.errors):
         raise AnalysisError(f"OPC-11: only {n_ok} opcode cases evaluated")
 
